@@ -202,3 +202,85 @@ Proof.
   cbv zeta. split; [cbn; repeat split; try exact I; vm_compute; repeat split; discriminate|].
   repeat split; vm_compute; reflexivity.
 Qed.
+
+(* ==== Tie to the source: GristGen.TextBuilder_gen is written by harness/tb2v.py from
+   /repo/sandbox/grist/textbuilder.py on every run; each translated function / method equals the model ==== *)
+Require Import Grist.Lib.TbPrelude GristGen.TextBuilder_gen Grist.Proofs.TextBuilder_bridge.
+
+Theorem C37_gen_make_patch : forall t s e new, gen_make_patch t s e new = make_patch t s e new.
+Proof. exact bridge_make_patch. Qed.
+Theorem C37_gen_validate_patch : forall t p,
+  gen_validate_patch t p = if validate_patch t p then Ok tt else ValueError.
+Proof. exact bridge_validate_patch. Qed.
+Theorem C37_gen_text_map_back : forall fixed t v p, map_back fixed (BText t v) p = gen_text_map_back t v p.
+Proof. exact bridge_text_map_back. Qed.
+(* Replacer.__init__: the offset arrays and the output text *)
+Theorem C37_gen_replacer_init : forall t ps, gen_replacer_init t ps = replacer_init t ps.
+Proof. exact bridge_replacer_init. Qed.
+Theorem C37_gen_get_input_pos : forall io oo k, gen_get_input_pos io oo k = get_input_pos io oo k.
+Proof. exact bridge_get_input_pos. Qed.
+(* Replacer.map_back_patch, incl. the computation of in_end *)
+Theorem C37_gen_replacer_map_back : forall inner ps p,
+  map_back true (BReplacer inner ps) p
+  = bind (render inner) (fun t => bind (gen_replacer_init t ps) (fun r =>
+      let '(io, oo, out) := r in gen_replacer_map_back io oo out t (map_back true inner) p)).
+Proof. exact bridge_replacer_map_back. Qed.
+Theorem C37_gen_map_back_offset : forall inner ps k,
+  map_back_offset (BReplacer inner ps) k
+  = bind (render inner) (fun t => bind (gen_replacer_init t ps) (fun r =>
+      let '(io, oo, _) := r in gen_map_back_offset io oo (is_replacer inner) (map_back_offset inner) k)).
+Proof. exact bridge_map_back_offset. Qed.
+(* Combiner.__init__: the part offsets and the text; Combiner.map_back_patch: index computation and ValueError *)
+Theorem C37_gen_combiner_init : forall gps,
+  gen_combiner_init gps = Ok (part_offsets 0 (map gp_text gps), concat (map gp_text gps)).
+Proof. exact bridge_combiner_init. Qed.
+Theorem C37_gen_combiner_map_back : forall fixed ps p (part_at : Z -> gmpart),
+  (forall k q, map_back_parts fixed ps k q = gm_dispatch (part_at (Z.of_nat k)) q) ->
+  map_back fixed (BCombiner ps) p
+  = bind (render_parts ps) (fun ts => gen_combiner_map_back (concat ts) (part_offsets 0 ts) part_at p).
+Proof. exact bridge_combiner_map_back. Qed.
+
+(* the generated methods composed along the object graph (g_render, g_map_back, g_offset of
+   Proofs/TextBuilder_bridge.v) are the model's functions *)
+Theorem C37_code_render : forall b, g_render b = render b.
+Proof. exact (proj1 g_render_eq). Qed.
+Theorem C37_code_map_back : forall b p, g_map_back b p = map_back true b p.
+Proof. exact (proj1 g_map_back_eq). Qed.
+Theorem C37_code_offset : forall b k, g_offset b k = map_back_offset b k.
+Proof. exact g_offset_eq. Qed.
+
+(* ... so the property's theorems are theorems about the regenerated code *)
+Theorem C37_code_text_of_nesting : forall b, wf_builder b -> g_render b = Ok (map fst (prender b)).
+Proof. intros. rewrite C37_code_render. apply render_prender. assumption. Qed.
+
+Theorem C37_code_map_back_exact : forall b s e new path i,
+  wf_builder b -> 0 <= s < e -> e <= len (prender b) ->
+  (forall k, s <= k < e -> snd (znth (prender b) k dcell) = Some (path, i + (k - s))) ->
+  exists t v, leaf_at b path = Some (t, v) /\
+    g_map_back b (s, e, sub (map fst (prender b)) s e, new)
+    = Ok (Some (t, v, (i, i + (e - s), sub t i (i + (e - s)), new))).
+Proof. intros. rewrite C37_code_map_back. apply C37_map_back_exact; assumption. Qed.
+
+Theorem C37_code_map_back_commutes : forall b s e new path i,
+  wf_builder b -> 0 <= s < e -> e <= len (prender b) ->
+  (forall k, s <= k < e -> snd (znth (prender b) k dcell) = Some (path, i + (k - s))) ->
+  let p := (s, e, sub (map fst (prender b)) s e, new) in
+  new <> [] \/ transport_sorted true b p ->
+  exists t v p', leaf_at b path = Some (t, v) /\ g_map_back b p = Ok (Some (t, v, p')) /\
+    leaf_at (rebuild true b p) path = Some (apply_patch t (p_start p') (p_end p') (p_new p'), v) /\
+    g_render (rebuild true b p) = Ok (apply_patch (map fst (prender b)) s e new).
+Proof.
+  intros b s e new path i Hwf Hse He Hall p Hts.
+  destruct (C37_map_back_commutes b s e new path i Hwf Hse He Hall Hts) as (t & v & p' & H1 & H2 & _ & H4 & H5).
+  exists t, v, p'. rewrite C37_code_map_back, C37_code_render. repeat split; assumption.
+Qed.
+
+Theorem C37_code_combiner_refuses_spanning : forall ps ts p k1 k2,
+  render_parts ps = Ok ts -> in_part ts k1 (p_start p) -> in_part ts k2 (p_end p - 1) -> k1 <> k2 ->
+  g_map_back (BCombiner ps) p = ValueError.
+Proof. intros. rewrite C37_code_map_back. eapply combiner_spanning; eassumption. Qed.
+
+Theorem C37_code_map_back_offset_exact : forall b k path i,
+  wf_builder b -> replacer_chain b -> 0 <= k < len (prender b) ->
+  snd (znth (prender b) k dcell) = Some (path, i) -> g_offset b k = Ok i.
+Proof. intros. rewrite C37_code_offset. eapply offset_exact; eassumption. Qed.
